@@ -879,7 +879,12 @@ Definition run_req (fixed : bool) (e : env) (s : state) (q : req) : option (stat
             | Some c =>
                 if out =? OUT_COUNT then
                   if glob_everything globs then
-                    (s, RInt (Z.max 0 (Z.of_nat (length c) - int_of_uint64 cursor)), false)
+                    (* count := uint64(Count()); if cursor >= count { count = 0 } else { count -= cursor };
+                       if count > sw.limit { count = sw.limit }   (limit 0 = MaxUint64 for COUNT) *)
+                    let n := N.of_nat (length c) in
+                    let cnt := if n <=? cursor then 0 else n - cursor in
+                    let lim := if limit =? 0 then max_uint64 else limit in
+                    (s, RInt (Z.of_N (if lim <? cnt then lim else cnt)), false)
                   else
                     let '(ids, _) := scan_select matchesb (keys c) cursor (if limit =? 0 then max_uint64 else limit) globs desc in
                     (s, RInt (Z.of_nat (length ids)), false)
